@@ -520,6 +520,21 @@ def decide(pid, uni, ana, known):
                 hidden[oid] = used
     for oid in hidden:
         failed.pop(oid, None)
+    # a failed panic-freedom obligation (real-line precondition / overflow) makes the verifier continue under an
+    # impossible assumption, so other failures in the same function may be mere consequences of it.  They stay alarms for
+    # the properties the panic itself violates; for any other property they are reported as undecided.
+    panicking = {}
+    for oid, descs in ana['failed'].items():
+        o = uni.oblig.get(oid)
+        if o and o['kind'] == 'nopanic':
+            panicking[(o['file'], last_seg(o['fn']))] = set(o['props'])
+    shadowed = {}
+    for oid in list(failed):
+        o = obl[oid]
+        key = (o['file'], last_seg(o['fn'])) if o['fn'] else None
+        if o['kind'] != 'nopanic' and key in panicking and pid not in panicking[key]:
+            shadowed[oid] = key
+            failed.pop(oid)
     kf = [k for k in known if k['property'] == pid]
     known_hit, new = {}, {}
     for oid, descs in failed.items():
@@ -530,6 +545,8 @@ def decide(pid, uni, ana, known):
             new[oid] = descs
     # functions hosting this property's obligations must have been verified (vacuity / completeness guard)
     inconclusive = list(ana['inconclusive'])
+    for oid, key in shadowed.items():
+        inconclusive.append('obligation %s fails, but %s::%s also has a failing panic-freedom obligation that may be its cause: undecided for this property' % (oid, key[0], key[1]))
     for oid, used in hidden.items():
         inconclusive.append('obligation %s fails, but its function now calls the new helper(s) %s which have no contract yet: undecided' % (oid, ', '.join(used)))
     hosts = sorted(set((o['file'], o['fn']) for o in obl.values() if o['fn'] and not uni.fn_external.get((o['file'], o['fn']))))
@@ -704,6 +721,18 @@ def main():
                 if len(pids) == 1:
                     rc = 2
                 continue
+            for k in known:
+                if k['property'] == pid and k['obligation'].startswith('history.'):
+                    # a recorded defect about a history across workers / threads, which no function contract can express;
+                    # the thorough tier re-runs its demonstration against the real code
+                    note = ''
+                    if tier == 'thorough' and REPO == '/repo' and not a.no_evidence:
+                        m = re.search(r'--bin (\w+)', k['text'])
+                        if m:
+                            pr = subprocess.run(['cargo', 'run', '--offline', '-q', '--bin', m.group(1)], cwd=os.path.join(VERIF, 'replay'),
+                                                env=dict(os.environ, CARGO_NET_OFFLINE='true'), stdout=subprocess.PIPE, stderr=subprocess.STDOUT, text=True)
+                            note = ' [demonstration re-run: %s]' % ('still manifests' if pr.returncode == 1 else 'does NOT manifest any more (exit %d)' % pr.returncode)
+                    print('KNOWN-FINDING: property=%s %s %s%s' % (pid, k['obligation'], k['text'][:400], note))
             for oid, (k, descs) in sorted(known_hit.items()):
                 print('KNOWN-FINDING: property=%s obligation=%s %s' % (pid, oid, k['text']))
             witness = None
